@@ -372,6 +372,9 @@ func (db *Database) openPage(page int) (interface{}, error) {
 		return nil, err
 	}
 	p, err := newBtree(buf, page == 1, db.header.PageSize)
+	if err == nil && !distinctChildren(p) {
+		return nil, ErrCorrupted
+	}
 	if err == nil {
 		db.btreeCache.set(page, p)
 	}
